@@ -68,10 +68,11 @@ type DRule struct {
 }
 
 type DItem struct {
-	Class string `json:"class"` // ws | struct | view | func | role | rate | limit | tag | proj
-	QName string `json:"q"`
-	Kind  string `json:"kind,omitempty"`
-	WS    string `json:"ws,omitempty"`
+	Class   string `json:"class"` // ws | struct | view | func | role | rate | limit | tag | proj
+	Comment string `json:"cmt,omitempty"`
+	QName   string `json:"q"`
+	Kind    string `json:"kind,omitempty"`
+	WS      string `json:"ws,omitempty"`
 	// ws
 	Abstract   bool     `json:"abstract,omitempty"`
 	Ancestors  []string `json:"anc,omitempty"`        // ALL ancestors: the closure of IWorkspace.Ancestors() (sys.Workspace only when there is no other)
@@ -291,6 +292,9 @@ func dumpRule(r appdef.IACLRule) DRule {
 
 func dumpType(t appdef.IType) (DItem, bool) {
 	it := DItem{QName: t.QName().String(), Kind: t.Kind().TrimString()}
+	if c := t.Comment(); len(c) > 0 {
+		it.Comment = fmt.Sprint(c) // not part of the model; compared between compilations (determinism)
+	}
 	if w := t.Workspace(); w != nil {
 		it.WS = w.QName().String()
 	}
